@@ -20,7 +20,24 @@ type struct1 struct {
 	B *string `cty:"b"`
 }
 
+// two different struct types with the same Go type name, declared in separate function scopes
+func recType1() reflect.Type {
+	type rec struct {
+		A int `cty:"a"`
+	}
+	return reflect.TypeOf(rec{})
+}
+
+func recType2() reflect.Type {
+	type rec struct {
+		A string `cty:"a"`
+		C bool   `cty:"c"`
+	}
+	return reflect.TypeOf(rec{})
+}
+
 var goKinds = map[string]reflect.Type{
+	"rec1": recType1(), "rec2": recType2(),
 	"int": reflect.TypeOf(int(0)), "int8": reflect.TypeOf(int8(0)), "int16": reflect.TypeOf(int16(0)), "int32": reflect.TypeOf(int32(0)), "int64": reflect.TypeOf(int64(0)),
 	"uint": reflect.TypeOf(uint(0)), "uint8": reflect.TypeOf(uint8(0)), "uint16": reflect.TypeOf(uint16(0)), "uint32": reflect.TypeOf(uint32(0)), "uint64": reflect.TypeOf(uint64(0)),
 	"float32": reflect.TypeOf(float32(0)), "float64": reflect.TypeOf(float64(0)), "string": reflect.TypeOf(""), "bool": reflect.TypeOf(false),
@@ -93,6 +110,11 @@ func buildGo(gv J) reflect.Value {
 	case "struct1":
 		out.Field(0).Set(buildGo(asJ(gv["a"])).Convert(reflect.TypeOf(int(0))))
 		out.Field(1).Set(buildGo(asJ(gv["b"])))
+	case "rec1":
+		out.Field(0).Set(buildGo(asJ(gv["a"])).Convert(reflect.TypeOf(int(0))))
+	case "rec2":
+		out.Field(0).Set(buildGo(asJ(gv["a"])))
+		out.Field(1).Set(buildGo(asJ(gv["c"])))
 	case "ctyvalue":
 		out.Set(reflect.ValueOf(Concretize(asJ(gv["v"]), 0)))
 	}
@@ -137,6 +159,11 @@ func projectGo(v reflect.Value, gt J) J {
 	case "struct1":
 		out["a"] = projectGo(v.Field(0), J{"g": "int"})
 		out["b"] = projectGo(v.Field(1), J{"g": "ptr", "e": J{"g": "string"}})
+	case "rec1":
+		out["a"] = projectGo(v.Field(0), J{"g": "int"})
+	case "rec2":
+		out["a"] = projectGo(v.Field(0), J{"g": "string"})
+		out["c"] = projectGo(v.Field(1), J{"g": "bool"})
 	case "ctyvalue":
 		out["v"] = Project(v.Interface().(cty.Value))
 	}
